@@ -11,9 +11,9 @@ import (
 
 var defaultComponents = map[string][]string{
 	"real": {"jtp", "client", "object", "pub", "splicer", "feed", "history", "ui", "config (init() under a generated file)", "main.go printRaw", "mime", "ansi", "style",
-		"hypertext/markdown/gemtext/plaintext renderers", "goldmark", "golang-lru", "singleflight", "encoding/json", "net/url", "crypto/tls (real-TLS runs)", "time (virtual clock of testing/synctest)"},
+		"hypertext/markdown/gemtext/plaintext renderers", "goldmark", "golang-lru (instrumented copy)", "singleflight (instrumented copy)", "main.go main() (main-mode sessions)", "encoding/json", "net/url", "crypto/tls (real-TLS runs)", "time (virtual clock of testing/synctest; readings strictly increasing)"},
 	"stub": {"TCP transport (simnet: in-memory buffered conns, scheduler-owned delivery)", "TLS handshake and record framing (stub-TLS runs)",
-		"sync.Mutex lock grant order (simsync)", "media hook process (simexec)", "tty and the three loops of main() (re-stated in the harness; main.go's printRaw is real, transplanted as package verifmain with os and x/term shimmed)", "system certificate store (simulated CA)"},
+		"sync.Mutex lock grant order (simsync)", "media hook process (simexec)", "tty (simos/simterm: fed keyboard, window size, captured output); the three loops of main() are re-stated in the harness for model-driven sessions and run as real code (main.go transplanted as package verifmain) in main-mode sessions; printRaw is always the real one", "system certificate store (simulated CA)"},
 }
 
 func writeEvidence(prop, tier string, seed uint64, plan *Plan, agg *aggregate, nviol int, wall time.Duration) error {
